@@ -69,7 +69,11 @@ def _run_chunk(args):
 
 def run_jobs(job_ids, modules, timeout_ms=10000, procs=None, chunk=25, progress=True):
     procs = procs or min(16, os.cpu_count() or 4)
-    chunks = [job_ids[i:i + chunk] for i in range(0, len(job_ids), chunk)]
+    heavy = [j for j in job_ids if not j.startswith("units.")]
+    light = [j for j in job_ids if j.startswith("units.")]
+    # heavy (composite) jobs first, one per task, so that they do not queue behind the many small unit-layer jobs
+    heavy.sort(key=lambda j: (0 if j.startswith("solver.run") else 1 if "powertrain_variables" in j else 2, j))
+    chunks = [[j] for j in heavy] + [light[i:i + chunk] for i in range(0, len(light), chunk)]
     results = []
     patches = []
     t0 = time.time()
